@@ -250,6 +250,8 @@ class GVec(_Generic):
     def __setitem__(self, k, v):
         if isinstance(k, tuple) and len(k) == 1 and isinstance(k[0], GVec):
             k = k[0]
+        if isinstance(k, GVec) and getattr(k, "where_of", None) is not None:
+            k = k.where_of  # v[np.where(mask)] = x  is  v[mask] = x
         if isinstance(k, GVec) and not (isinstance(k.val, SV) and k.val.isint):
             _same_space(self.space, k.space, "masked store into a per-row vector")
             if isinstance(v, GVec):
@@ -357,10 +359,20 @@ def _reset_space(space):
     return Space(n=space.n, parent=space, pos_id=space.pos_id, label_id=space.pos_id)
 
 
-def _filter_space(space, mask_true=False):
+def _filter_space(space, mask_true=False, mask=None):
+    """the layout of the rows of `space` that pass a filter; the same mask (same formula) on the same layout gives the same filtered layout,
+    so that a[m] and b[m] stay aligned"""
     cx = ctx()
+    memo = cx.__dict__.setdefault("_filter_spaces", {})
+    key = None
+    if mask is not None:
+        key = (space.pos_id, z3.simplify(mask).sexpr())
+        if key in memo:
+            return memo[key]
     sp = Space(parent=space, tag="f", label_id=space.label_id)
     cx.assume(to_z3(sp.n) <= to_z3(space.n))
+    if key is not None:
+        memo[key] = sp
     return sp
 
 
@@ -400,8 +412,11 @@ def pos_frame(cols, prefix, space=None, angle_cols=()):
 
 def _mask_vec(v, m):
     _same_space(v.space, m.space, "boolean mask")
-    sp = _filter_space(v.space)
-    return GVec(v.val, sp, z3.And(v.present, to_bool(m.val)), v.kind, v.name)
+    sp = _filter_space(v.space, mask=z3.And(v.present, to_bool(m.val)))
+    r = GVec(v.val, sp, z3.And(v.present, to_bool(m.val)), v.kind, v.name)
+    if getattr(v, "target_space", None) is not None:
+        r.target_space = v.target_space
+    return r
 
 
 class PosElem:
@@ -582,7 +597,7 @@ class RowArr(_Generic):
             return _take_rows(self, key)
         if isinstance(key, GVec):  # boolean mask rows
             _same_space(self.space, key.space, "boolean mask")
-            sp = _filter_space(self.space)
+            sp = _filter_space(self.space, mask=z3.And(self.present, to_bool(key.val)))
             return RowArr(self.vals, sp, z3.And(self.present, to_bool(key.val)))
         if isinstance(key, slice) and key == slice(None):
             return self
@@ -807,6 +822,21 @@ class GFrame(_Generic):
     def select_rows(self, r):
         if isinstance(r, slice) and r == slice(None):
             return self
+        if isinstance(r, GVec) and isinstance(r.val, SV) and r.val.isint and getattr(r, "target_space", None) is not None and r.target_space.pos_id == self.space.pos_id:
+            # rows picked by a vector of row positions of THIS table (labels = positions for a RangeIndex): the generic row of the result is this
+            # table's row at that position; needs the table's values as functions of the row position
+            if not self.space.is_range:
+                raise Unsupported("row selection by positions on a table without a RangeIndex")
+            pv = RowPos(self.space).val.t
+            row = {}
+            for c, v in self.row.items():
+                if isinstance(v, SV):
+                    if not _mentions(v.t, pv) and not r.val.t.eq(pv):
+                        raise Unsupported("row selection by positions: values are not functions of the row position")
+                    row[c] = SV(z3.substitute(v.t, (pv, r.val.t)))
+                else:
+                    row[c] = v
+            return GFrame(self.cols, row, r.space, r.present, perm=self.perm)
         if isinstance(r, GVec):
             _same_space(self.space, r.space, "boolean row mask")
             if not isinstance(r.val, (SB, bool)):
@@ -814,7 +844,7 @@ class GFrame(_Generic):
             mt = z3.simplify(to_bool(r.val))
             if z3.is_true(mt):
                 return self
-            sp = _filter_space(self.space)
+            sp = _filter_space(self.space, mask=z3.And(self.present, mt))
             return GFrame(self.cols, self.row, sp, z3.And(self.present, mt), perm=self.perm)
         if isinstance(r, SiteList):
             return r.select(self)
